@@ -219,7 +219,7 @@ OP_KINDS = [
     "insert_node", "split", "join", "lift", "wrap", "set_block_type", "set_node_markup",
     "add_mark", "remove_mark", "add_node_mark", "remove_node_mark", "set_node_attribute",
     "set_doc_attribute", "raw_step", "replace_with_self", "mark_run", "seam_pair", "mark_sweep",
-    "clear_incompatible", "mark_any",
+    "clear_incompatible", "mark_any", "node_mark_stack",
 ]
 
 DEFAULT_MIX = {
@@ -227,7 +227,7 @@ DEFAULT_MIX = {
     "paste_range": 4, "insert_node": 4, "split": 4, "join": 3, "lift": 3, "wrap": 3,
     "set_block_type": 4, "set_node_markup": 2, "add_mark": 5, "remove_mark": 3,
     "add_node_mark": 2, "remove_node_mark": 1, "set_node_attribute": 3, "set_doc_attribute": 2,
-    "raw_step": 3, "replace_with_self": 1, "mark_run": 1, "mark_sweep": 1, "clear_incompatible": 1, "mark_any": 1,
+    "raw_step": 3, "replace_with_self": 1, "mark_run": 1, "mark_sweep": 1, "clear_incompatible": 1, "mark_any": 1, "node_mark_stack": 1,
 }
 
 
@@ -493,9 +493,58 @@ def gen_op_(rng, kind, doc, sel, pool):
                         break
         else:
             m = rand_mark(rng, schema, par.allows_mark_type if rng.random() < 0.85 else None)
+            if kind == "add_node_mark" and rng.random() < 0.5:
+                # a node that already carries marks, and a mark type that displaces one of them
+                import validity
+
+                cands = []
+                for p_ in ps:
+                    n_ = doc.node_at(p_)
+                    have = [mk.type.name for mk in n_.marks]
+                    if len(have) >= 1:
+                        for t in schema.marks.values():
+                            if any(validity.excludes(schema, t.name, h) for h in have):
+                                cands.append((p_, t))
+                if cands:
+                    pos, t = rng.choice(cands)
+                    m = t.create(rand_attrs(rng, t))
         if m is None:
             return None
         return {"op": kind, "pos": pos, "mark": m.to_json(), "mtype": None}
+    if kind == "node_mark_stack":
+        # several node marks on one node, the last one displacing an earlier one of another type
+        # while unrelated marks sit around it in the set
+        import validity
+
+        ps = node_positions(doc, lambda n: not n.is_text)
+        names = list(schema.marks)
+        pairs = [(x, d) for x in names for d in names if x != d and validity.excludes(schema, x, d)]
+        if not ps or len(names) < 3:
+            return None
+        pos = rng.choice(ps)
+        par = doc.resolve(pos).parent.type
+        allowed = [n for n in names if par.allows_mark_type(schema.marks[n])]
+        if len(allowed) < 3:
+            return None
+        if pairs and rng.random() < 0.7:
+            x, d = rng.choice(pairs)
+            if x not in allowed or d not in allowed:
+                return None
+            others = [n for n in allowed if n not in (x, d)]
+            ix, idd = names.index(x), names.index(d)
+            between = [n for n in others if min(ix, idd) < names.index(n) < max(ix, idd)
+                       and not validity.excludes(schema, x, n) and not validity.excludes(schema, n, x)]
+            below = [n for n in others if names.index(n) < min(ix, idd)]
+            if between and rng.random() < 0.7:
+                seq = [rng.choice(between)] + ([rng.choice(below)] if below and rng.random() < 0.7 else []) + [d]
+            else:
+                seq = rng.sample(others, min(len(others), rng.randint(1, 3))) + [d]
+            rng.shuffle(seq)
+            seq.append(x)
+        else:
+            seq = rng.sample(allowed, min(len(allowed), rng.randint(3, 4)))
+        marks = [schema.marks[n].create(rand_attrs(rng, schema.marks[n])).to_json() for n in seq]
+        return {"op": "node_mark_stack", "pos": pos, "marks": marks}
     if kind == "mark_run":
         # two or three mark operations on touching / overlapping ranges in one transaction: their
         # steps are consecutive and mergeable (AddMarkStep.merge / RemoveMarkStep.merge)
@@ -549,6 +598,21 @@ def gen_op_(rng, kind, doc, sel, pool):
         m = rand_mark(rng, schema)
         if m is None:
             return None
+        if rng.random() < 0.5:
+            # prefer a mark type that interacts (excludes / is excluded by) with a mark some text
+            # in a textblock already carries: mark-set canonicalisation under exclusion
+            import validity
+
+            cands = []
+            for (p_, n_) in blocks:
+                have = {mk.type.name for ch in n_.content.content for mk in ch.marks}
+                for t in schema.marks.values():
+                    if any(h != t.name and (validity.excludes(schema, t.name, h) or validity.excludes(schema, h, t.name))
+                           for h in have):
+                        cands.append((p_, n_, t))
+            if cands:
+                pos, node, t = rng.choice(cands)
+                m = t.create(rand_attrs(rng, t))
         a, b = pos + 1, pos + 1 + node.content.size
         r = rng.random()
         if r < 0.3:
@@ -962,6 +1026,13 @@ def apply_op(tr, op):
             tr.add_node_mark(op["pos"], m)
         else:
             tr.remove_node_mark(op["pos"], m)
+    elif k == "node_mark_stack":
+        inr(op["pos"])
+        node = doc.node_at(op["pos"])
+        if node is None or node.is_text:
+            raise Refused("no node")
+        for mj in op["marks"]:
+            tr.add_node_mark(op["pos"], schema.mark_from_json(mj))
     elif k == "set_node_attribute":
         inr(op["pos"])
         node = doc.node_at(op["pos"])
